@@ -11,7 +11,7 @@
    `nd` = warm-up length (n_discard of the current run); `da_m` = number of adaptation updates
    so far (persists across runs); `a` = acceptance statistic alpha / n_alpha of the transition
    just performed.  m^(-kappa) is written exp (- kappa * ln m). *)
-From MiniMcmc Require Import Model.DualAvg Proofs.DualAvg Model.FindEps Proofs.FindEps.
+From MiniMcmc Require Import Model.DualAvg Proofs.DualAvg Model.FindEps Proofs.FindEps Proofs.FindEpsX.
 From Coq Require Import Reals Qreals List.
 From Interval Require Import Interval Xreal Tactic.
 Open Scope R_scope.
@@ -386,6 +386,83 @@ Proof.
   unfold Q2R. cbn. Lra.lra.
 Qed.
 
+(* ---- (8) find_reasonable_epsilon when the log acceptance probability may be -inf, +inf or NaN ----
+   (Model/FindEps.v, Section FindEpsX: a leapfrog step that leaves the support of the target has
+   log-density -inf; comparisons follow IEEE: every comparison with NaN is false,
+   -inf < every finite value < +inf.  `xval A` = XFin a | XNegInf | XPosInf | XNaN.) *)
+
+(* on an oracle that only returns finite values the extended model is the finite one of (7) *)
+Theorem C04_find_eps_x_fin : forall (K : Num) (lap : K -> K) (lnhalf : K) (fuel : nat),
+  find_eps_x K (fun e => XFin (lap e)) lnhalf fuel = find_eps_gen K lap lnhalf fuel.
+Proof. exact find_eps_x_fin. Qed.
+
+(* whatever the oracle returns (infinities and NaN included), a returned initial step size lies on the
+   grid 1/2 * 2^(+-k), k <= fuel ... *)
+Theorem C04_find_eps_x_grid : forall (lapx : R -> xval R) (fuel : nat) (e : R),
+  find_eps_x numR lapx (ln (1 / 2)) fuel = Some e ->
+  exists (k : nat) (up : bool), (k <= fuel)%nat /\ e = 1 / 2 * (if up then 2 else / 2) ^ k.
+Proof. exact find_eps_x_grid. Qed.
+
+(* ... hence is positive (and finite: it is a real number) *)
+Theorem C04_find_eps_x_positive : forall (lapx : R -> xval R) (fuel : nat) (e : R),
+  find_eps_x numR lapx (ln (1 / 2)) fuel = Some e -> 0 < e.
+Proof. exact find_eps_x_positive. Qed.
+
+(* the special values at the first test (the step of size 1): NaN stops at 1/2; +inf doubles at least
+   once; -inf (the step of size 1 leaves the support) halves at least once *)
+Theorem C04_find_eps_x_special_values : forall (lapx : R -> xval R) (fuel : nat),
+  (lapx 1 = XNaN -> find_eps_x numR lapx (ln (1 / 2)) fuel = Some (1 / 2))
+  /\ (lapx 1 = XPosInf -> forall e : R, find_eps_x numR lapx (ln (1 / 2)) fuel = Some e ->
+        (exists k : nat, (1 <= k <= fuel)%nat /\ e = 1 / 2 * 2 ^ k) /\ 1 <= e)
+  /\ (lapx 1 = XNegInf -> forall e : R, find_eps_x numR lapx (ln (1 / 2)) fuel = Some e ->
+        (exists k : nat, (1 <= k <= fuel)%nat /\ e = 1 / 2 * (/ 2) ^ k) /\ 0 < e <= 1 / 4).
+Proof.
+  intros lapx fuel. split; [|split].
+  - exact (find_eps_x_nan_first lapx fuel).
+  - intros H e. exact (find_eps_x_posinf_first lapx fuel e H).
+  - intros H e. exact (find_eps_x_neginf_first lapx fuel e H).
+Qed.
+
+(* soundness of the rational evaluation, as C04_find_eps_bracket: lapQ is the rational restriction of
+   lapR (xmap f applies f to a finite value and keeps -inf, +inf, NaN) *)
+Theorem C04_find_eps_x_bracket :
+  forall (lapQ : Q -> xval Q) (lapR : R -> xval R) (lo hi : Q) (fuel : nat) (e : Q),
+  (forall q : Q, lapR (Q2R q) = xmap Q2R (lapQ q)) ->
+  Q2R lo < ln (1 / 2) < Q2R hi ->
+  find_eps_x numQ lapQ lo fuel = Some e ->
+  find_eps_x numQ lapQ hi fuel = Some e ->
+  find_eps_x numR lapR (ln (1 / 2)) fuel = Some (Q2R e).
+Proof. exact find_eps_x_bracket. Qed.
+
+(* the log acceptance probability of one leapfrog step on the half-line target (log p = -x0 - sum x_i^2/2
+   for x0 > 0, -inf otherwise) commutes with the embedding of Q into R *)
+Theorem C04_lapx_halfline_q2r : forall (x p : list Q) (e : Q),
+  lapx_halfline numR (map Q2R x) (map Q2R p) (Q2R e) = xmap Q2R (lapx_halfline numQ x p e).
+Proof. exact q2r_lapx_halfline. Qed.
+
+(* hence the in-Coq evaluation on the half-line target is sound: when its two halves (lower / upper bound
+   of ln(1/2), fuel 40) print the same positive rational e, the extended real model returns e *)
+Theorem C04_find_eps_x_eval_sound : forall (x p : list Q) (e : Q),
+  find_eps_x_eval x p = qout e ++ qout e -> 0 < Q2R e ->
+  find_eps_x numR (lapx_halfline numR (map Q2R x) (map Q2R p)) (ln (1 / 2)) 40 = Some (Q2R e).
+Proof. exact find_eps_x_eval_sound. Qed.
+
+(* non-vacuity, on a case where a step leaves the support: from x = 1/2 with momentum -2 the steps of size
+   1 and 1/4 end at x0 <= 0 (log acceptance probability -inf), the step of size 1/8 stays inside; the
+   evaluation prints 1/8 under both bounds, so the real model returns 1/8 *)
+Example C04_find_eps_x_example :
+  lapx_halfline numQ [(1 # 2)%Q] [(-2)%Q] 1%Q = XNegInf /\
+  find_eps_x_eval [(1 # 2)%Q] [(-2)%Q] = qout (1 # 8)%Q ++ qout (1 # 8)%Q /\
+  find_eps_x numR (lapx_halfline numR (map Q2R [(1 # 2)%Q]) (map Q2R [(-2)%Q])) (ln (1 / 2)) 40
+  = Some (Q2R (1 # 8)%Q).
+Proof.
+  assert (H : find_eps_x_eval [(1 # 2)%Q] [(-2)%Q] = qout (1 # 8)%Q ++ qout (1 # 8)%Q)
+    by (vm_compute; reflexivity).
+  split; [vm_compute; reflexivity|].
+  split; [exact H|]. apply C04_find_eps_x_eval_sound; [exact H|].
+  unfold Q2R. cbn. Lra.lra.
+Qed.
+
 Print Assumptions C04_warmup_closed_form.
 Print Assumptions C04_warmup_exp_form.
 Print Assumptions C04_hbar_update.
@@ -417,3 +494,11 @@ Print Assumptions C04_lap_gauss_q2r.
 Print Assumptions C04_find_eps_eval_sound.
 Print Assumptions C04_find_eps_example.
 Print Assumptions C04_find_eps_eval_example.
+Print Assumptions C04_find_eps_x_fin.
+Print Assumptions C04_find_eps_x_grid.
+Print Assumptions C04_find_eps_x_positive.
+Print Assumptions C04_find_eps_x_special_values.
+Print Assumptions C04_find_eps_x_bracket.
+Print Assumptions C04_lapx_halfline_q2r.
+Print Assumptions C04_find_eps_x_eval_sound.
+Print Assumptions C04_find_eps_x_example.
